@@ -5,6 +5,7 @@ import (
 	"fmt"
 	"net/netip"
 	"reflect"
+	"strings"
 	"time"
 
 	"github.com/netsampler/goflow2/v2/decoders/netflow"
@@ -85,7 +86,7 @@ func init() {
 				}
 				showPB(&t, stripDelim(o.bin))
 				var jt toks
-				judge(&jt, o, fc, false)
+				judge(&jt, o, fc, strings.HasPrefix(a[1], "yamlj:"))
 				// drop the "b =hex" prefix of judge's output
 				s := jt.String()
 				for k := 0; k < 2; k++ {
@@ -152,6 +153,9 @@ func indexByte(s string, c byte) int {
 }
 
 func loadedCfg(name string) *protoproducer.ProducerConfig {
+	if strings.HasPrefix(name, "yamlj:") {
+		name = "yaml:" + name[6:]
+	}
 	if len(name) < 5 || name[:5] != "yaml:" {
 		return nil
 	}
